@@ -8,8 +8,9 @@
 #include <nstd/Error.hpp>
 
 void drv_init(int, char**) { g_op_timeout = 10; }
-void drv_fini() {}
-void drv_reset() {}
+static void drop_parser();
+void drv_fini() { drop_parser(); }
+void drv_reset() { drop_parser(); }
 
 // ---- the driver's own tree (independent of Variant) ------------------------------------------------
 struct Node
@@ -164,6 +165,9 @@ static void put_variant(const Variant& v)
   }
 }
 
+static Json::Parser* g_parser = 0;
+static void drop_parser() { delete g_parser; g_parser = 0; }
+
 void drv_apply(const char* op)
 {
   if(!strcmp(op, "strip"))
@@ -185,7 +189,9 @@ void drv_apply(const char* op)
     int n; unsigned char* d = tok_bytes(&n, 1);
     int ok, line = 0, col = 0;
     {
-      Json::Parser parser; Variant result;
+      // ONE parser object per execution, used for every document (state of an earlier document must not leak into a later one)
+      if(!g_parser) g_parser = new Json::Parser;
+      Json::Parser& parser = *g_parser; Variant result;
       ok = parser.parse((const char*)d, result) ? 1 : 0;
       if(!ok) { line = parser.getErrorLine(); col = parser.getErrorColumn(); }
     }
